@@ -199,8 +199,12 @@ def gen_enum(rng, idx):
         arms.append(f"            {k} => {e},")
     inst = f"{name}<i64>" if tp else name
     eattr = rng.choice(['', '', '#[difference(expose)]\n', f'#[difference(expose = "{name}Diff")]\n'])
+    # the comma after the LAST variant is optional (and absent in one-line enums such as `enum E { A, B }`)
+    last_comma = rng.random() < 0.5
+    vlines = [(f"    {rng.choice(DOCS).strip()}\n" if rng.random() < 0.2 else '') + f"    {v}" for v in variants]
+    enum_body = ',\n'.join(vlines) + (',\n' if last_comma else '\n')
     euse = ''
-    src = (rng.choice(DOCS) + "#[derive(Debug, Clone, PartialEq, Difference)]\n#[cfg_attr(feature = \"sd\", derive(serde::Serialize, serde::Deserialize))]\n" + eattr + f"pub enum {name}{gen} {{\n" + ''.join(f"    {rng.choice(DOCS).strip()}\n    {v},\n" if rng.random() < 0.2 else f"    {v},\n" for v in variants) + "}\n"
+    src = (rng.choice(DOCS) + "#[derive(Debug, Clone, PartialEq, Difference)]\n#[cfg_attr(feature = \"sd\", derive(serde::Serialize, serde::Deserialize))]\n" + eattr + f"pub enum {name}{gen} {{\n" + enum_body + "}\n"
            + euse + f"impl{'<T: Mk>' if tp else ''} Mk for {name}{gen} {{\n    fn mk(s: u64) -> Self {{\n        match s % {len(variants)} {{\n" + '\n'.join(arms[:-1]) + ('\n' if len(arms) > 1 else '')
            + arms[-1].replace(f"            {len(arms) - 1} =>", "            _ =>") + "\n        }\n    }\n}\n"
            + f"pub fn test() -> Result<(), String> {{\n    for seed in 0..12u64 {{\n        let a: {inst} = Mk::mk(seed);\n        let b: {inst} = Mk::mk(seed / 2 + 1);\n        let d = a.diff(&b);\n"
